@@ -1325,4 +1325,163 @@ example : ((cacheHit (msgLen true) (msgLen false) (fun _ => 90) {} 0 (writerWire
               (normalised qDO0 (setEdns0 {} false qDO0.opt))).map (fun r => (r.fl.tc, r.ns.length))) =
     (some (false, 1), some (true, 0)) := by decide
 
+/-! ### failover, DoH -/
+
+theorem failoverPick_echoes (q : Query) (m : Msg) (hm : Echoes q m) :
+    ∀ (l : List (Option Msg)) (ff : Option Msg),
+      (∀ r, some r ∈ l → r.opcode = m.opcode ∧ r.fl.qr = true ∧ r.question = m.question) →
+      (∀ f, ff = some f → Echoes q f) → Echoes q (failoverPick m l ff) := by
+  intro l
+  induction l with
+  | nil =>
+    intro ff _ hff
+    unfold failoverPick
+    cases ff with
+    | none => exact hm
+    | some f => exact hff f rfl
+  | cons x t ih =>
+    intro ff hl hff
+    cases x with
+    | none =>
+      unfold failoverPick
+      exact ih ff (fun r hr => hl r (List.mem_cons_of_mem _ hr)) hff
+    | some r =>
+      obtain ⟨h1, h2, h3⟩ := hl r List.mem_cons_self
+      obtain ⟨m1, m2, _, m4⟩ := hm
+      have hr' : Echoes q { r with id := m.id, fl := { r.fl with cd := m.fl.cd } } :=
+        ⟨m1, by simp only; rw [h1, m2], h2, by simp only; rw [h3, m4]⟩
+      unfold failoverPick
+      simp only
+      split
+      · apply ih _ (fun r hr => hl r (List.mem_cons_of_mem _ hr))
+        intro f hf
+        cases ff with
+        | none => simp only [Option.some.injEq] at hf; subst hf; exact hr'
+        | some f0 => simp only [Option.some.injEq] at hf; subst hf; exact hff _ rfl
+      · exact hr'
+
+/-- **Whatever failover hands on echoes the client's query**: the downstream
+SERVFAIL itself, a fallback server's answer, or — when every fallback also
+failed — the retained failure reply; each is stamped with the ID the request
+carried (the fallback exchange's own random ID never leaves). Fallback answers
+are assumed to answer the question failover asked (the client library checks
+that). -/
+theorem failover_echoes (q : Query) (m : Msg) (hm : Echoes q m) (l : List (Option Msg))
+    (hl : ∀ r, some r ∈ l → r.opcode = m.opcode ∧ r.fl.qr = true ∧ r.question = m.question) :
+    Echoes q (failover m l) := by
+  unfold failover
+  split
+  · exact hm
+  · split
+    · exact hm
+    · exact failoverPick_echoes q m hm l none hl (by intro f hf; cases hf)
+
+/-- **DoH wire format: the reply carries the ID the handler wrote** (GET and POST alike) — with `reply_echo`, the query's. -/
+theorem doh_reply_keeps_id (m : Msg) : (dohWireReply m).id = m.id ∧ dohWireReply m = m := ⟨rfl, rfl⟩
+
+-- non-vacuity: both fallbacks answer SERVFAIL under their own IDs: the client still gets its own ID
+example : (failover { nodata with id := 7, rcode := 2, fl := { qr := true, rd := true } }
+    [some { nodata with id := 4242, rcode := 2 }, none, some { nodata with id := 999, rcode := 2 }]).id = 7 := by decide
+example : ((failover { nodata with id := 7, rcode := 2, fl := { qr := true, rd := true } }
+    [some { nodata with id := 4242, rcode := 2 }, some { nodata with id := 999, rcode := 0 }]).rcode,
+   (failover { nodata with id := 7, rcode := 2, fl := { qr := true, rd := false } } [some { nodata with id := 1, rcode := 0 }]).rcode) = (0, 2) := by decide
+
+/-- **A plain UDP cache hit stays within the negotiated size on either route.**
+On the byte route the datagram is the packed body (`Lp`) plus the exact
+encoding of the appended OPT — every option of it, the entry's extended error
+included — and that sum is within `max(512, min(advertised, 1232))`; on the
+message route the reply is within the bound or truncated to question + OPT. -/
+theorem cacheHit_udp_bound (L Lu Lp : Msg → Nat) (hL : ∀ m, L m ≤ Lu m) (c : Consts) (cfg : Cfg) (secretLen : Nat)
+    (q : Query) (w : Writer) (hw : WriterFor cfg .udp q w) (ready : Bool) (m r : Msg)
+    (h : cacheHit L Lu Lp cfg secretLen w ready m (normalised q (setEdns0 c cfg.ecs q.opt)) = some r) :
+    (∃ b, Lp b + ((r.extra.filter RR.isOpt).map (rrLen true)).sum ≤ udpLimit q) ∨
+    L r ≤ udpLimit q ∨
+    (r.fl.tc = true ∧ r.answer = [] ∧ r.ns = [] ∧ ∀ rr ∈ r.extra, rr.isOpt = true) := by
+  have hmsg : ∀ e : Entry, r = writeMsg L Lu cfg w (toMsg e (normalised q (setEdns0 c cfg.ecs q.opt))) →
+      (∃ b, Lp b + ((r.extra.filter RR.isOpt).map (rrLen true)).sum ≤ udpLimit q) ∨
+      L r ≤ udpLimit q ∨ (r.fl.tc = true ∧ r.answer = [] ∧ r.ns = [] ∧ ∀ rr ∈ r.extra, rr.isOpt = true) := by
+    intro e hr
+    subst hr
+    exact Or.inr (udp_size_bound L Lu hL cfg q w hw _)
+  unfold cacheHit at h
+  cases hwe : newWEntry m with
+  | none => rw [hwe] at h; simp at h
+  | some we =>
+    cases hce : newCacheEntry m with
+    | none => rw [hwe, hce] at h; simp at h
+    | some e =>
+      rw [hwe, hce] at h
+      simp only at h
+      cases hcp : wireReady cfg secretLen w ready with
+      | none => rw [hcp] at h; simp only [Option.some.injEq] at h; exact hmsg e h.symm
+      | some cp =>
+        rw [hcp] at h
+        simp only at h
+        cases hs : serveWireInto we (normalised q (setEdns0 c cfg.ecs q.opt)) cp.do_ with
+        | none => rw [hs] at h; simp only [Option.some.injEq] at h; exact hmsg e h.symm
+        | some p =>
+          obtain ⟨b, info⟩ := p
+          rw [hs] at h
+          simp only at h
+          split at h
+          · simp only [Option.some.injEq] at h; exact hmsg e h.symm
+          · split at h
+            · rename_i r' hwr
+              simp only [Option.some.injEq] at h
+              subst h
+              left
+              exact ⟨b, Nat.le_trans ((writeWire_some _ cfg w b r' info hwr).2.2 hw.proto_eq) (hw.size_udp rfl)⟩
+            · simp only [Option.some.injEq] at h; exact hmsg e h.symm
+
+-- non-vacuity: an entry with an extended error whose body + OPT fits 512 but + EDE does not: the byte route declines, the message route truncates
+example : ((cacheHit (fun x => 480 + ((x.extra.filter RR.isOpt).map (rrLen true)).sum + x.answer.length * 20) (fun _ => 5000) (fun _ => 480) {} 0
+      (writerWire {} .udp { qDO0 with opt := some { udp := 512 } }) true
+      { nodata with answer := [.data .other 1 20 20], ns := [], extra := [.opt { udp := 1232, options := [.raw codeEDE [0, 3, 115, 116, 97, 108, 101, 115, 116, 97, 108, 101, 115, 116, 97, 108, 101, 115, 116, 97]] } false] }
+      (normalised { qDO0 with opt := some { udp := 512 } } (setEdns0 {} false (some { udp := 512 })))).map (fun r => (r.fl.tc, r.answer.length))) =
+    some (true, 0) := by decide
+
+/-- **The cache's byte-route alias chase obeys the AD rule and echoes the
+query**, whatever AD bits the alias and the target were admitted with. -/
+theorem chaseHit_respects_client (cfg : Cfg) (secretLen : Nat) (proto : Proto) (q q' : Query) (w : Writer)
+    (hw : WriterFor cfg proto q w) (hq : q'.id = q.id ∧ q'.opcode = q.opcode ∧ q'.question = q.question ∧ q'.cd = q.cd)
+    (ready : Bool) (alias target r : Msg)
+    (h : chaseHit cfg secretLen w ready alias target q' = some r) :
+    Echoes q r ∧ ((q.cd = true ∨ (q.clientDO = false ∧ q.ad = false)) → r.fl.ad = false) := by
+  unfold chaseHit at h
+  cases ha : newWEntry alias with
+  | none => rw [ha] at h; simp at h
+  | some a =>
+    cases ht : newWEntry target with
+    | none => rw [ha, ht] at h; simp at h
+    | some t =>
+      rw [ha, ht] at h
+      simp only at h
+      cases hcp : wireReady cfg secretLen w ready with
+      | none => rw [hcp] at h; simp at h
+      | some cp =>
+        rw [hcp] at h
+        simp only at h
+        cases hab : wireBodyFor a cp.do_ with
+        | none => rw [hab] at h; simp at h
+        | some pa =>
+          cases htb : wireBodyFor t cp.do_ with
+          | none => rw [hab, htb] at h; simp at h
+          | some pt =>
+            obtain ⟨ab, af⟩ := pa
+            obtain ⟨tb, tf⟩ := pt
+            rw [hab, htb] at h
+            simp only at h
+            obtain ⟨w1, w2, w3, w4, _⟩ := writeWire_header _ cfg w _ r _ h
+            obtain ⟨h1, h2, h3, _⟩ := hq
+            refine ⟨⟨by rw [w1]; exact h1, by rw [w2]; exact h2, by rw [w3]; rfl, by rw [w4]; simp [composeChase, h3]⟩, ?_⟩
+            intro hcl
+            exact writeWire_ad _ cfg proto q w hw _ r _ rfl hcl h
+
+-- non-vacuity: a validated alias (AD=1) over an insecure target (AD=0), asked wire-born by a DO=1 client: composed, AD clear
+example : (chaseHit {} 0 (writerWire {} .tcp { qDO0 with opt := some { udp := 1232, doBit := true } }) true
+    { nodata with fl := { qr := true, ad := true, ra := true }, ns := [], answer := [.data .cname 9 20 20] }
+    { nodata with fl := { qr := true, ra := true }, ns := [], answer := [.data .other 1 20 20] }
+    (normalised { qDO0 with opt := some { udp := 1232, doBit := true } } (setEdns0 {} false (some { udp := 1232, doBit := true })))).map
+      (fun r => (r.fl.ad, r.answer)) = some (false, [.data .cname 9 20 20, .data .other 1 20 20]) := by decide
+
 end SdnsVerif.Props.C06
